@@ -1,7 +1,7 @@
 """C06 — tracked struct identities survive re-execution; dropped structs are discarded."""
 from checks_path import *  # noqa
 from seq_common import run_seq, replay_seq
-from structs_common import run_structs, replay_structs
+from structs_common import run_structs, replay_structs, replay_structs_oracle
 
 PROPERTY = 'C06'
 GEN = ['LogicStructs']
@@ -23,7 +23,7 @@ EXPLANATION = ('Theorems about the Lean model of the tracked-struct table (ident
 ASSUMPTIONS = ['identity hash is an uninterpreted function in the model (collisions allowed); the driver feeds the traced hash and checks that it is a function of the identity value',
                'field values are not visible to the hooks: the struct harness announces them in `note` lines (a harness that lied would be caught only through the revision / identity-change outcomes)',
                'hash-table iteration order of the active list is an input to the model (checked to be a permutation)',
-               'outside the model, cut short and counted (info.cases_cut_short_as_unmodelled): fixpoint iterations (seed_iteration), an unwind that starts inside clear_memos of an identity-changed update, and an execution aborted by a panic after it already replaced an id by its next generation (the creator\'s memo then keeps the old generation: see the report in DESIGN.md / known findings)',
+               'outside the model, cut short and counted (info.cases_cut_short_as_unmodelled): fixpoint iterations (seed_iteration), an unwind that starts inside clear_memos of an identity-changed update, and an execution aborted by a panic after it already replaced an id by its next generation (the creator\'s memo then keeps the old generation: an observable stale value, reproducer `vh structs demo-unwind`, DESIGN.md B.8)',
                'the delete cascade through memos stored in a deleted struct is replayed in its real nested order with deleteEntity per id (the World op `discard` of the theorems is the sequential approximation)']
 
 def ties(ctx):
@@ -39,6 +39,8 @@ def search(ctx, reason):
     return None
 
 def replay(ctx, path):
-    if path.endswith('.trace'):
+    if open(path).readline().startswith('structs-oracle'):
+        return replay_structs_oracle(ctx, path)
+    if path.endswith('.trace') or open(path).readline().startswith('reset'):
         return replay_structs(ctx, path)
     return replay_seq(ctx, path)
